@@ -203,7 +203,8 @@ static void enumerate(void)
 				add((c04_cfg){ 1, Q, M, 1, 0, adv, pre, 0, 0, -1 });
 				add((c04_cfg){ 1, Q, M, 0, M + pre, adv, pre, 0, 0, -1 });
 				add((c04_cfg){ 2, Q, M, 0, 2 * M + pre, adv, pre, 0, 0, (M == 2 && !th) ? 3 : -1 });
-				add((c04_cfg){ 2, Q, M, 1, 0, adv, pre, 0, 0, (M == 2 && !th) ? 3 : -1 });
+				/* quick tier: the longest executions (retrying senders on a pre-filled queue) are preemption-bounded */
+				add((c04_cfg){ 2, Q, M, 1, 0, adv, pre, 0, 0, ((M == 2 || pre >= 2) && !th) ? 3 : -1 });
 				add((c04_cfg){ 2, Q, M, 0, 0, adv, pre, 3, 0, -1 });			/* senders only */
 			}
 			add((c04_cfg){ 3, Q, 1, 0, 3 + pre, adv, pre, 0, 0, th ? 3 : 2 });
@@ -252,6 +253,7 @@ int main(int argc, char **argv)
 		if (vx_deadline_passed()) { vx_and("exhaustive", 0); vx_count("scenarios_skipped_deadline", 1); continue; }
 		build(&cfgs[i]);
 		O.bound = cfgs[i].bound;
+		double t_scn = vx_now();
 		vs_explore(&S, &O, &st);
 		if (st.racy) {
 			vs_options F = O; F.fine_grained = 1; F.race_detect = 0;
@@ -259,6 +261,7 @@ int main(int argc, char **argv)
 			vx_count("scenarios_rerun_fine_grained", 1);
 			vs_explore(&S, &F, &st);
 		}
+		if (vx_now() - t_scn > 4.0) vx_note("slow scenario %s: %.1f s, %llu states", S.name, vx_now() - t_scn, (unsigned long long)st.states);
 		vx_count("scenarios", 1);
 		if (cfgs[i].bound < 0) vx_count("scenarios_all_interleavings", 1); else vx_count("scenarios_deviation_bounded", 1);
 		vx_count("states", st.states); vx_count("transitions", st.steps + st.interrupts_injected); vx_count("traces", st.executions);
